@@ -20,11 +20,20 @@ package agent
 //  O2 no phantom: every live record of the directory is an accepted second (time, payload), once.
 //  O3 wire integrity: every request carries the time and payload of the second it names; at most one
 //     offering of a second is non-historic (every re-offer goes through the historic conveyor).
-//  O4 re-offer until discard: in the drain phase every outstanding second is offered again. An
-//     agent that goes silent (no request on any replica for c01apIdle) with such a second pending
-//     has forgotten it => violation. A drain that is still active at its budget is inconclusive.
+//  O4 nothing is forgotten while un-acknowledged (state based, time only decides when to look): in
+//     the drain phase (after the recent senders of the last incarnation have finished) an outstanding
+//     second must be somewhere: in Shard.historicBucketsToSend, in the hands of a sender goroutine, or
+//     a live record of the cache directory. It is a violation only if it is in none of them: not in
+//     the queue, all 24 goSendHistoric goroutines parked in cond.Wait and goEraseHistoric idle (read
+//     from a labelled goroutine profile), and not live on disk - seen twice, 0.5 s apart. A second
+//     that is still present but was not offered within the budget makes the history inconclusive.
+//  O5 restart yields exactly what is on disk: right after MakeAgent of a later incarnation every live
+//     record found at the previous exit is indexed by the new disk cache (same file, position, time)
+//     and queued in historicBucketsToSend, or lies in the part of the tail not read yet; and the cache
+//     indexes nothing else.
 
 import (
+	"bytes"
 	"context"
 	"encoding/binary"
 	"encoding/json"
@@ -36,6 +45,7 @@ import (
 	"net"
 	"os"
 	"path/filepath"
+	"runtime/pprof"
 	"sort"
 	"strings"
 	"sync"
@@ -94,9 +104,9 @@ type c01apHist struct {
 // ---------- timing constants (pacing only; none of them decides O1..O3) ----------
 
 var (
-	c01apIdle        = 15 * time.Second // longer than every legitimate silent period of a correct agent (1 s back-offs, 10 s no-live-replica wait, rpc reconnect back-off after <= 3 s of downtime)
-	c01apDrainBudget = 45 * time.Second
-	c01apRecentWait  = 40 * time.Second
+	c01apDrainBudget = 90 * time.Second // real-time budget of the drain; running out of it is inconclusive, never a violation
+	c01apRecentWait  = 50 * time.Second // a recent send has a 24 s deadline
+	c01apLookAfter   = 1500 * time.Millisecond
 )
 
 // ---------- model of what the harness did and what the servers saw ----------
@@ -168,6 +178,7 @@ func (w *c01apWorld) logf(f string, a ...any) {
 
 type c01apListener struct {
 	net.Listener
+	w     *c01apWorld
 	mu    sync.Mutex
 	down  bool
 	conns map[string]net.Conn
@@ -179,6 +190,9 @@ func (l *c01apListener) Accept() (net.Conn, error) {
 		if err != nil {
 			return nil, err
 		}
+		l.w.mu.Lock()
+		l.w.lastReq = time.Now() // an agent that is (re)connecting is not silent
+		l.w.mu.Unlock()
 		l.mu.Lock()
 		if l.down {
 			l.mu.Unlock()
@@ -234,7 +248,7 @@ func c01apStartSrv(w *c01apWorld, idx int) (*c01apSrv, error) {
 		return nil, err
 	}
 	s := &c01apSrv{w: w, idx: idx, addr: ln.Addr().String(), done: make(chan struct{})}
-	s.ln = &c01apListener{Listener: ln, conns: map[string]net.Conn{}}
+	s.ln = &c01apListener{Listener: ln, w: w, conns: map[string]net.Conn{}}
 	h := tlstatshouse.Handler{
 		RawSendSourceBucket3: s.handleBucket,
 		RawSendKeepAlive3:    s.handleKeepAlive,
@@ -380,6 +394,7 @@ type c01apDiskRec struct {
 	t    uint32
 	body []byte
 	file string
+	pos  int64
 }
 
 var c01apCastagnoli = crc32.MakeTable(crc32.Castagnoli)
@@ -427,7 +442,7 @@ func c01apReadDir(dir string) (live []c01apDiskRec, problems []string) {
 				if crc32.Checksum(body, c01apCastagnoli) != crc {
 					problems = append(problems, fmt.Sprintf("%s: record at %d (time %d) fails its checksum", n, pos, tm))
 				} else {
-					live = append(live, c01apDiskRec{t: tm, body: body, file: n})
+					live = append(live, c01apDiskRec{t: tm, body: body, file: n, pos: int64(pos)})
 				}
 			case 0x000007EC:
 			default:
@@ -449,6 +464,80 @@ type c01apInc struct {
 	kaStop     atomic.Bool
 	kaWG       sync.WaitGroup
 	histWG     sync.WaitGroup // the goSendHistoric goroutines
+	tag        string         // pprof label of its goSendHistoric/goEraseHistoric goroutines
+}
+
+// ---------- where are the sender goroutines of an incarnation? (labelled goroutine profile) ----------
+
+type c01apPark struct {
+	histParked int // goSendHistoric goroutines inside cond.Wait (they hold no second)
+	eraseIdle  int // goEraseHistoric inside cond.Wait or in its 60 s select (it holds no second there)
+}
+
+var c01apProf struct {
+	mu  sync.Mutex
+	at  time.Time
+	seq int
+	m   map[string]c01apPark
+}
+
+var c01apTagSeq atomic.Int64
+
+// c01apParked returns the parking state of every labelled incarnation; the profile is shared by the
+// concurrently running histories for 300 ms. seq identifies the profile.
+func c01apParked() (map[string]c01apPark, int) {
+	c01apProf.mu.Lock()
+	defer c01apProf.mu.Unlock()
+	if c01apProf.m != nil && time.Since(c01apProf.at) < 300*time.Millisecond {
+		return c01apProf.m, c01apProf.seq
+	}
+	var buf bytes.Buffer
+	_ = pprof.Lookup("goroutine").WriteTo(&buf, 1)
+	m := map[string]c01apPark{}
+	for _, block := range strings.Split(buf.String(), "\n\n") {
+		lines := strings.Split(strings.TrimSpace(block), "\n")
+		n, tag := 0, ""
+		var funcs []string
+		for _, ln := range lines {
+			switch {
+			case strings.HasPrefix(ln, "# labels:"):
+				if i := strings.Index(ln, `"c01ap":"`); i >= 0 {
+					rest := ln[i+len(`"c01ap":"`):]
+					if j := strings.IndexByte(rest, '"'); j >= 0 {
+						tag = rest[:j]
+					}
+				}
+			case strings.HasPrefix(ln, "#\t"):
+				f := strings.Split(ln, "\t")
+				if len(f) >= 3 {
+					name := f[2]
+					if k := strings.LastIndex(name, "+0x"); k >= 0 {
+						name = name[:k]
+					}
+					funcs = append(funcs, name)
+				}
+			case strings.Contains(ln, " @ "):
+				_, _ = fmt.Sscanf(ln, "%d @", &n)
+			}
+		}
+		if tag == "" || n == 0 {
+			continue
+		}
+		pk := m[tag]
+		for i := 1; i < len(funcs); i++ {
+			callee := funcs[i-1]
+			switch {
+			case strings.HasSuffix(funcs[i], ".(*Shard).goSendHistoric") && callee == "sync.(*Cond).Wait":
+				pk.histParked += n
+			case strings.HasSuffix(funcs[i], ".(*Shard).goEraseHistoric") && (callee == "sync.(*Cond).Wait" || callee == "runtime.selectgo"):
+				pk.eraseIdle += n
+			}
+		}
+		m[tag] = pk
+	}
+	c01apProf.m, c01apProf.at = m, time.Now()
+	c01apProf.seq++
+	return m, c01apProf.seq
 }
 
 // c01apPoison is the Locker of the condition variable a dead incarnation gets: goSendHistoric and
@@ -494,7 +583,7 @@ func (inc *c01apInc) bury() {
 	time.AfterFunc(500*time.Millisecond, func() { clear() })
 }
 
-func c01apStartAgent(w *c01apWorld, cacheDir string) (*c01apInc, error) {
+func c01apStartAgent(w *c01apWorld, cacheDir string, prevLive []c01apDiskRec, first bool) (_ *c01apInc, o5 string, _ error) {
 	h := w.h
 	cfg := DefaultConfig()
 	cfg.HistoricWindow = uint(h.HistoricWindow)
@@ -508,7 +597,7 @@ func c01apStartAgent(w *c01apWorld, cacheDir string) (*c01apInc, error) {
 	cfg.LivenessResponsesWindowLength = h.LiveWin
 	cfg.LivenessResponsesWindowSuccesses = h.LiveSucc
 	if err := cfg.ValidateConfigSource(); err != nil {
-		return nil, err
+		return nil, "", err
 	}
 	if h.DiskMode == 2 {
 		cacheDir = ""
@@ -518,9 +607,12 @@ func c01apStartAgent(w *c01apWorld, cacheDir string) (*c01apInc, error) {
 		pcache.NewMappingsCache(data_model.NewChunkedStorageNop(), 1<<20, 86400), nil, nil, w.logf, nil,
 		&tlstatshouse.GetConfigResult3{Addresses: addrs, ShardByMetricCount: 1}, nil)
 	if err != nil {
-		return nil, err
+		return nil, "", err
 	}
-	inc := &c01apInc{ag: ag}
+	inc := &c01apInc{ag: ag, tag: fmt.Sprint(c01apTagSeq.Add(1))}
+	if !first && ag.diskBucketCache != nil {
+		o5 = c01apCheckYield(ag, filepath.Join(cacheDir, "0"), prevLive) // no sender runs yet: nothing moves
+	}
 	// load spreading delay before a recent send: up to 1 s in production, shortened to save wall time
 	ag.Shards[0].timeSpreadDelta = time.Duration(h.SpreadMs) * time.Millisecond
 	histCtx, cancel := context.WithCancel(context.Background())
@@ -539,12 +631,16 @@ func c01apStartAgent(w *c01apWorld, cacheDir string) (*c01apInc, error) {
 			inc.histWG.Add(1)
 			go func() {
 				defer inc.histWG.Done()
-				c01apReap(func() { shard.goSendHistoric(&ag.sendersWG, histCtx) })
+				pprof.Do(context.Background(), pprof.Labels("c01ap", inc.tag), func(context.Context) {
+					c01apReap(func() { shard.goSendHistoric(&ag.sendersWG, histCtx) })
+				})
 			}()
 		}
 		ag.sendersWG.Add(1)
 		// never cancelled, as in production (returning from its select would unlock an unlocked mutex)
-		go c01apReap(func() { shard.goEraseHistoric(&ag.sendersWG, context.Background()) })
+		go pprof.Do(context.Background(), pprof.Labels("c01ap", inc.tag), func(context.Context) {
+			c01apReap(func() { shard.goEraseHistoric(&ag.sendersWG, context.Background()) })
+		})
 	}
 	// stand-in for goLiveChecker (which cannot be stopped): probe dead replicas with the real sendKeepLive
 	for _, sr := range ag.ShardReplicas {
@@ -560,7 +656,60 @@ func c01apStartAgent(w *c01apWorld, cacheDir string) (*c01apInc, error) {
 			}
 		}()
 	}
-	return inc, nil
+	return inc, o5, nil
+}
+
+// c01apCheckYield is O5: what a freshly made agent knows of its cache directory against the live
+// records an independent reader found there at the previous exit.
+func c01apCheckYield(ag *Agent, shardDir string, prevLive []c01apDiskRec) string {
+	sh := ag.diskBucketCache.shards[0]
+	sh.mu.Lock()
+	defer sh.mu.Unlock()
+	type key struct {
+		file string
+		pos  int64
+	}
+	indexed := map[key]int64{}
+	for id, kb := range sh.knownBuckets {
+		indexed[key{kb.file.name, kb.pos}] = id
+	}
+	unread := func(k key) bool {
+		if rt := sh.readingFileTail; rt != nil && rt.name == k.file && k.pos >= rt.nextPos {
+			return true
+		}
+		for _, wf := range sh.waitingFilesTail {
+			if wf.name == k.file {
+				return true
+			}
+		}
+		return false
+	}
+	queued := map[int64]uint32{}
+	for _, cbd := range ag.Shards[0].historicBucketsToSend {
+		queued[cbd.id] = cbd.time
+	}
+	want := map[key]bool{}
+	for _, r := range prevLive {
+		k := key{filepath.Join(shardDir, r.file), r.pos}
+		want[k] = true
+		id, ok := indexed[k]
+		switch {
+		case ok && sh.knownBuckets[id].time != r.t:
+			return fmt.Sprintf("after a restart the live record of time %d at %s:%d is indexed under time %d", r.t, r.file, r.pos, sh.knownBuckets[id].time)
+		case ok:
+			if tm, q := queued[id]; !q || tm != r.t {
+				return fmt.Sprintf("after a restart the live record of time %d at %s:%d was read from the cache but is not queued for sending", r.t, r.file, r.pos)
+			}
+		case !unread(k):
+			return fmt.Sprintf("after a restart the live record of time %d at %s:%d is neither indexed by the new disk cache nor in the part of the tail it has still to read: it will never be offered", r.t, r.file, r.pos)
+		}
+	}
+	for k := range indexed {
+		if !want[k] {
+			return fmt.Sprintf("after a restart the disk cache indexes a record at %s:%d that was not live at the previous exit", k.file, k.pos)
+		}
+	}
+	return ""
 }
 
 func c01apPayload(ord, pad int) []byte {
@@ -602,8 +751,8 @@ func (w *c01apWorld) limitMayFireLocked() bool {
 	return w.h.DiskMode == 1 && w.bytesPut > w.h.DiskLimit
 }
 
-// shutdown stops an incarnation like cmd/statshouse does and then freezes its disk cache (process exit)
-func (w *c01apWorld) shutdown(inc *c01apInc, ph int, after []c01apSec, base uint32, cacheDir string) (live []c01apDiskRec, viol, inconcl string) {
+// stopRecent is the graceful part of the shutdown of cmd/statshouse: DisableNewSends, (shutdown flush), WaitRecentSenders
+func (w *c01apWorld) stopRecent(inc *c01apInc, ph int, after []c01apSec, base uint32) (inconcl string) {
 	w.mu.Lock()
 	close(w.release) // hanging handlers drop their connections now
 	w.release = make(chan struct{})
@@ -617,6 +766,11 @@ func (w *c01apWorld) shutdown(inc *c01apInc, ph int, after []c01apSec, base uint
 	if time.Since(t0) >= c01apRecentWait {
 		inconcl = "recent senders did not finish"
 	}
+	return inconcl
+}
+
+// exit freezes the disk cache of a stopped incarnation (process exit) and returns its live records
+func (w *c01apWorld) exit(inc *c01apInc, cacheDir string) (live []c01apDiskRec, viol string) {
 	inc.histCancel()
 	inc.kaStop.Store(true)
 	_ = inc.ag.rpcClientConfig.Close()
@@ -637,7 +791,7 @@ func (w *c01apWorld) shutdown(inc *c01apInc, ph int, after []c01apSec, base uint
 		}
 	}
 	inc.bury()
-	return live, viol, inconcl
+	return live, viol
 }
 
 // checkDisk is O1 and O2 for the directory content found at a shutdown
@@ -727,6 +881,95 @@ func (w *c01apWorld) outstandingLocked(now uint32, lastPhase int) (out []*c01apS
 	return out
 }
 
+// drainLoop is O4. All replicas are healthy and answer discard, the recent senders have finished (a
+// recent send may wait 24 s for its deadline), only the historic conveyor works.
+func (w *c01apWorld) drainLoop(inc *c01apInc, cacheDir string, last int) (viol, inconcl string) {
+	start := time.Now()
+	shard := inc.ag.Shards[0]
+	type verdict struct {
+		seq   int
+		at    time.Time
+		gone  map[int]bool // seconds found nowhere
+		stuck bool         // every outstanding second is present (on disk) but nobody will send it
+	}
+	var prev *verdict
+	for {
+		now := time.Now()
+		w.mu.Lock()
+		out := w.outstandingLocked(uint32(now.Unix()), last)
+		lastReq, inflight := w.lastReq, w.inflight
+		w.mu.Unlock()
+		if len(out) == 0 {
+			break
+		}
+		if now.Sub(start) > c01apDrainBudget {
+			inconcl = fmt.Sprintf("drain still active after %v (%d seconds outstanding)", c01apDrainBudget, len(out))
+			break
+		}
+		if inflight != 0 || now.Sub(lastReq) < c01apLookAfter || now.Sub(start) < c01apLookAfter || (prev != nil && now.Sub(prev.at) < 500*time.Millisecond) {
+			if inflight != 0 || now.Sub(lastReq) < c01apLookAfter {
+				prev = nil
+			}
+			time.Sleep(20 * time.Millisecond)
+			continue
+		}
+		// look at the state of the agent
+		parked, seq := c01apParked()
+		pk := parked[inc.tag]
+		allParked := pk.histParked == data_model.MaxHistorySendStreams && pk.eraseIdle == 1
+		inQueue := map[uint32][][]byte{}
+		shard.mu.Lock()
+		for _, cbd := range shard.historicBucketsToSend {
+			inQueue[cbd.time] = append(inQueue[cbd.time], cbd.data)
+		}
+		shard.mu.Unlock()
+		var live []c01apDiskRec
+		if dc := inc.ag.diskBucketCache; dc != nil {
+			dc.shards[0].mu.Lock()
+			live, _ = c01apReadDir(filepath.Join(cacheDir, "0"))
+			dc.shards[0].mu.Unlock()
+		}
+		onDisk := map[string]bool{}
+		for _, r := range live {
+			onDisk[string(r.body)] = true
+		}
+		cur := &verdict{seq: seq, at: time.Now(), gone: map[int]bool{}, stuck: allParked}
+		for _, st := range out {
+			queued := false
+			for _, d := range inQueue[st.t] {
+				if d == nil || bytes.Equal(d, st.data) { // an entry without data is read from disk when sent: counts as present
+					queued = true
+				}
+			}
+			switch {
+			case queued || !allParked:
+				cur.stuck = false // it is, or may be, on its way
+			case !onDisk[string(st.data)]:
+				cur.gone[st.ord] = true
+				cur.stuck = false
+			}
+		}
+		if prev != nil && prev.seq != cur.seq {
+			for _, st := range out {
+				if prev.gone[st.ord] && cur.gone[st.ord] {
+					return fmt.Sprintf("second #%d (time %d, fed in phase %d, offers %s) was never acknowledged with discard and is inside the historic window (%d s), but the agent has forgotten it: it is not in historicBucketsToSend, all %d goSendHistoric goroutines are parked in cond.Wait and goEraseHistoric is idle, and the cache directory has no live record of it (seen twice, %v apart)",
+						st.ord, st.t, st.phase, c01apOffers(st.offers), w.h.HistoricWindow, data_model.MaxHistorySendStreams, cur.at.Sub(prev.at).Round(time.Millisecond)), ""
+				}
+			}
+			if prev.stuck && cur.stuck {
+				w.class("stranded-on-disk")
+				return "", fmt.Sprintf("%d outstanding seconds are live on disk but the agent is idle and does not queue them (they would be offered after the next restart)", len(out))
+			}
+		}
+		prev = cur
+		time.Sleep(20 * time.Millisecond)
+	}
+	if time.Since(start) > 4*time.Second {
+		w.class("slow-drain")
+	}
+	return "", inconcl
+}
+
 func c01apRun(h c01apHist, dir string) (res c01apResult) {
 	w := &c01apWorld{h: h, classes: map[string]bool{}, release: make(chan struct{}), lastReq: time.Now()}
 	defer func() {
@@ -753,6 +996,7 @@ func c01apRun(h c01apHist, dir string) (res c01apResult) {
 		return
 	}
 	last := len(h.Phases) - 1
+	var prevLive []c01apDiskRec
 	for pi, ph := range h.Phases {
 		w.mu.Lock()
 		w.phase = pi
@@ -760,10 +1004,13 @@ func c01apRun(h c01apHist, dir string) (res c01apResult) {
 		for r := 0; r < 3; r++ {
 			w.srv[r].ln.setDown(r < len(ph.Down) && ph.Down[r])
 		}
-		inc, err := c01apStartAgent(w, cacheDir)
+		inc, o5, err := c01apStartAgent(w, cacheDir, prevLive, pi == 0)
 		if err != nil {
 			res.violation = fmt.Sprintf("phase %d: agent does not start on its own cache directory: %v", pi, err)
 			return
+		}
+		if o5 != "" {
+			res.violation = fmt.Sprintf("phase %d: %s", pi, o5)
 		}
 		base := uint32(time.Now().Unix())
 		var after []c01apSec
@@ -779,43 +1026,17 @@ func c01apRun(h c01apHist, dir string) (res c01apResult) {
 			// drain: every replica healthy, every offering answered discard
 			w.mu.Lock()
 			w.drain = true
-			close(w.release)
-			w.release = make(chan struct{})
 			w.mu.Unlock()
 			for r := 0; r < 3; r++ {
 				w.srv[r].ln.setDown(false)
 			}
-			start := time.Now()
-			for {
-				now := time.Now()
-				w.mu.Lock()
-				out := w.outstandingLocked(uint32(now.Unix()), last)
-				lastReq, inflight := w.lastReq, w.inflight
-				w.mu.Unlock()
-				if len(out) == 0 {
-					break
-				}
-				quietSince := lastReq
-				if start.After(quietSince) {
-					quietSince = start
-				}
-				if inflight == 0 && now.Sub(quietSince) > c01apIdle {
-					st := out[0]
-					res.violation = fmt.Sprintf("second #%d (time %d, fed in phase %d, offers %s) was never acknowledged with discard, is inside the historic window (%d s), and the agent stopped offering it: all replicas were healthy and saw no request for %v (%d such seconds)",
-						st.ord, st.t, st.phase, c01apOffers(st.offers), h.HistoricWindow, c01apIdle, len(out))
-					break
-				}
-				if now.Sub(start) > c01apDrainBudget {
-					res.inconclusive = fmt.Sprintf("drain still active after %v (%d seconds outstanding)", c01apDrainBudget, len(out))
-					break
-				}
-				time.Sleep(20 * time.Millisecond)
-			}
-			if time.Since(start) > 4*time.Second {
-				w.class("slow-drain")
-			}
 		}
-		live, viol, inconcl := w.shutdown(inc, pi, after, base, cacheDir)
+		inconcl := w.stopRecent(inc, pi, after, base)
+		if pi == last && inconcl == "" && res.violation == "" {
+			res.violation, res.inconclusive = w.drainLoop(inc, cacheDir, last)
+		}
+		live, viol := w.exit(inc, cacheDir)
+		prevLive = live
 		nowAfter := uint32(time.Now().Unix())
 		if res.violation == "" {
 			res.violation = viol
@@ -824,8 +1045,8 @@ func c01apRun(h c01apHist, dir string) (res c01apResult) {
 			res.inconclusive = inconcl
 		}
 		if res.violation == "" {
-			// after a drain everything was acknowledged, only O2 is left to check; after an inconclusive wait O1 is not decided
-			res.violation = w.checkDisk(live, nowAfter, res.inconclusive == "")
+			// O1 needs the recent senders to have finished, nothing else: the historic conveyor only ever drops its memory copy
+			res.violation = w.checkDisk(live, nowAfter, inconcl == "")
 		}
 		if pi == last && res.violation == "" && len(live) == 0 {
 			w.class("disk-clean-at-end")
